@@ -184,22 +184,33 @@ open MythVerif.Wsq (Elem Pid Holder)
        callback, trypass, peek, wsapi peek) with the fences of the source:
        retd.Nodup ∧ multiset(A) + in-flight + returned = multiset(inserted).
 
-   Proved below, for every capacity, any number of thieves and every interleaving of program steps
-   and store-buffer drains: the machine of `Model/WsQueueTso.lean`, i.e. owner `push` (without
-   re-centring: a push at `top == size` stops) and `pop` – fast path, locked slow path, reset path –
-   against `myth_queue_take` of any number of thieves.  Not covered: trypass / put (base-side
-   insertion), peek, the wsapi variants, the steal cache, re-centring, clear.  Modelling
-   simplification (DESIGN A.3): the releasing store of unlock is performed on memory right after its
-   fence. -/
+   Proved below, for every capacity, any number of other participants and every interleaving of
+   program steps and store-buffer drains: the machine of `Model/WsQueueTso.lean`, i.e.
+     * owner `push` (without re-centring: a push at `top == size` stops), `pop` – fast path, locked
+       slow path, reset path – and `put` (base-side insertion under the lock, without re-centring:
+       a put at `base == 0` stops, still holding the lock);
+     * any number of other participants, each running any sequence of `myth_queue_take`,
+       `myth_queue_trypass` (trylock – a failure returns 0; `base == 0` returns 0; slot store,
+       `base--`, unlock) and `myth_queue_peek` (lock-free loads of `base`, `top`, one slot; nothing
+       is removed and the value read is only a hint to the caller – nothing is claimed about it).
+   put and trypass linearize when their `base` store DRAINS (the slot store precedes it in the same
+   FIFO buffer), for trypass possibly while the owner is inside a lock-free push or pop.
+   Not covered: the wsapi variants (take with decision callback, wsapi peek), the steal cache,
+   re-centring in push and put, clear.  Modelling simplification (DESIGN A.3): the releasing store
+   of unlock is performed on memory right after its fence. -/
 
-/-- **No loss, no duplication under x86-TSO store buffering (partial: push / pop / take).**
+/-- **No loss, no duplication under x86-TSO store buffering (partial: push / pop / put / take /
+trypass / peek).**
 In every reachable state of the store-buffer machine with the fences of the source, for every
-capacity and any number of thieves: the TSO invariant holds (buffer shapes, memory-side window
-`[lb, mem.top)` = prefix of `A`, `mem.base = lb (+1 while a thief's increment is visible)`), every
-value returned equals the element removed at the linearization point, nothing is returned twice,
-and inserted = deque + in flight + returned as multisets; the three fall-back branches of the
-model's ghost look-ups are unreachable; in a quiescent drained state memory `[base, top)` holds
-exactly the threads not yet resumed. -/
+capacity and any number of other participants (each running take, trypass or peek, in any order):
+the TSO invariant holds (buffer shapes, memory-side window `[lb, mem.top)` = prefix of `A`,
+`mem.base = lb (+1 while a thief's increment is visible)`), every value returned equals the element
+removed at the linearization point, nothing is returned twice, and inserted = deque + in flight +
+returned as multisets; the three fall-back branches of the model's ghost look-ups are unreachable;
+in a quiescent drained state memory `[base, top)` holds exactly the threads not yet resumed; a
+pending inserting `base` store (put, trypass) belongs to the lock holder just before its unlock,
+targets the slot below the logical base, and the buffer's view of that slot is the element it will
+insert when it drains; the overflow tests `base == 0` of put and trypass read the logical base. -/
 theorem C02_no_loss_no_dup_tso_partial (n : Int) (s : St) (h : Reachable step (init FenceCfg.code n) s) :
     Inv s ∧
     (s.ins.Nodup → s.retd.Nodup ∧ (s.A ++ (s.flT.toList ++ (s.flO.toList ++ s.retd))).Perm s.ins) ∧
@@ -208,9 +219,16 @@ theorem C02_no_loss_no_dup_tso_partial (n : Int) (s : St) (h : Reachable step (i
      (∀ p b, s.tpc p = .tk2 b → b < viewTop (s.bufT p) s.top → s.A ≠ [])) ∧
     (s.opc = .idle → (∀ p, s.tpc p = .idle) → s.bufO = [] →
       s.flO = none ∧ s.flT = none ∧ s.lock = .free ∧ s.base = s.lb ∧ s.top = s.lt ∧
-      (∀ k : Nat, k < s.A.length → s.ptr (s.base + k) = s.A[k]?) ∧ (s.A.length : Int) = s.top - s.base) := by
+      (∀ k : Nat, k < s.A.length → s.ptr (s.base + k) = s.A[k]?) ∧ (s.A.length : Int) = s.top - s.base) ∧
+    ((∀ v e, Sto.baseI v e ∈ s.bufO →
+        s.opc = .pt9 ∧ s.lock = .owner ∧ v = s.lb - 1 ∧ viewPtr s.bufO s.ptr v = some e) ∧
+     (∀ p v e, Sto.baseI v e ∈ s.bufT p →
+        (∃ ok, s.tpc p = .tp4 ok) ∧ s.lock = .thief p ∧ v = s.lb - 1 ∧ viewPtr (s.bufT p) s.ptr v = some e)) ∧
+    ((∀ e, s.opc = .pt1 e → viewBase s.bufO s.base = s.lb) ∧
+     (∀ p e, s.tpc p = .tp1 e → viewBase (s.bufT p) s.base = s.lb)) := by
   have hi := reachable_inv n s h
-  exact ⟨hi, no_loss_no_dup n s h, ghost_branches_unreachable s hi, quiescent_mem s hi⟩
+  exact ⟨hi, no_loss_no_dup n s h, ghost_branches_unreachable s hi, quiescent_mem s hi,
+    ⟨owner_baseI s hi, thief_baseI s hi⟩, base_tests_logical s hi⟩
 
 /-! non-vacuity (TSO machine): the owner pushes 1, 2, 3 (capacity 8) with the stores of the last
     push still buffered, starts a pop (its `top` store buffered behind them), and a thief takes
@@ -225,5 +243,107 @@ def exTso : List Lbl :=
 example : (runs step (init FenceCfg.code 8) exTso).map
     (fun s => (s.retd, s.A, s.top, s.base, s.bufO)) = some ([3, 1], [2], 6, 5, []) := by decide
 example : (runs step (init FenceCfg.code 8) exTso).map (fun s => decide s.ins.Nodup) = some true := by decide
+
+/-! a thief's take races an owner put for the slot at `base`: the owner (capacity 8, element 1 pushed
+    and drained) runs `put 2` up to its unlock with the slot store and the `base` store still
+    buffered; thief 0 passes its quick check on the stale `base` and spins on the lock; the two
+    stores drain (the second drain is put's linearization point), the owner unlocks, the thief
+    takes 2 – the element put at the base side – and 1 stays in the deque -/
+open Lbl in
+def exPutRacePre : List Lbl :=
+  [oPush 1, o, o, o, o, flushO, flushO,
+   oPut 2, o, o, o, o, o,
+   tTake 0, t 0, t 0, t 0]
+
+open Lbl in
+def exPutRace : List Lbl :=
+  exPutRacePre ++
+  [flushO, flushO, o,
+   t 0, t 0, flushT 0, t 0, t 0, t 0, t 0]
+
+/-- the racing state: both stores buffered, nothing inserted yet, the thief at the lock -/
+example : (runs step (init FenceCfg.code 8) exPutRacePre).map
+    (fun s => (s.opc, s.tpc 0, s.bufO, s.base, s.lb)) =
+    some (.pt9, .tkl, [.ptr 3 (some 2), .baseI 3 2], 4, 4) := by decide
+example : (runs step (init FenceCfg.code 8) exPutRacePre).map (fun s => (s.A, s.ins, s.lock)) =
+    some ([1], [1], .owner) := by decide
+example : (runs step (init FenceCfg.code 8) exPutRace).map
+    (fun s => (s.retd, s.A, s.top, s.base, s.bufO)) = some ([2], [1], 5, 4, []) := by decide
+example : (runs step (init FenceCfg.code 8) exPutRace).map (fun s => (s.lock, s.ins, s.lb)) =
+    some (.free, [2, 1], 4) := by decide
+
+open Lbl in
+/-- put on an empty deque, then pop returns the element through the locked slow path -/
+def exPutPop : List Lbl :=
+  [oPut 5, o, o, o, o, o, flushO, flushO, o,
+   oPop, o, o, flushO, o, o, o, o, o, o, flushO, o]
+
+example : (runs step (init FenceCfg.code 8) exPutPop).map
+    (fun s => (s.retd, s.A, s.top, s.base, s.bufO)) = some ([5], [], 3, 3, []) := by decide
+example : (runs step (init FenceCfg.code 8) exPutPop).map (fun s => (s.opc, s.ins)) =
+    some (.idle, [5]) := by decide
+
+open Lbl in
+/-- a put at `base == 0` stops (re-centring is outside the model), holding the lock -/
+example : (runs step (init FenceCfg.code 1) [oPut 1, o, o]).map (fun s => (s.opc, s.lock)) =
+    some (.stuckL, .owner) := by decide
+
+
+/-! trypass races the owner's lock-free pop: elements 1, 2, 3 pushed and drained (capacity 8);
+    passer 0 runs `trypass 9` up to its unlock with both stores buffered while the owner pops 3 on
+    the fast path reading the stale `base`; the stores drain (the second drain inserts 9), thief 1
+    then takes 9 -/
+open Lbl in
+def exPassPre : List Lbl :=
+  [oPush 1, o, o, o, o, flushO, flushO, oPush 2, o, o, o, o, flushO, flushO, oPush 3, o, o, o, o, flushO, flushO,
+   tPass 0 9, t 0, t 0, t 0, t 0, t 0,
+   oPop, o, o, flushO, o, o]
+
+open Lbl in
+def exPass : List Lbl :=
+  exPassPre ++
+  [o, flushT 0, flushT 0, t 0,
+   tTake 1, t 1, t 1, t 1, t 1, flushT 1, t 1, t 1, t 1, t 1]
+
+example : (runs step (init FenceCfg.code 8) exPassPre).map
+    (fun s => (s.opc, s.tpc 0, s.bufT 0, s.base, s.A)) =
+    some (.po3 6 3, .tp4 true, [.ptr 3 (some 9), .baseI 3 9], 4, [1, 2]) := by decide
+example : (runs step (init FenceCfg.code 8) exPass).map
+    (fun s => (s.retd, s.A, s.top, s.base, s.lock)) = some ([9, 3], [1, 2], 6, 4, .free) := by decide
+example : (runs step (init FenceCfg.code 8) exPass).map (fun s => (s.ins, decide s.ins.Nodup)) =
+    some ([9, 3, 2, 1], true) := by decide
+
+open Lbl in
+/-- a peek while the passer's stores are buffered sees the stale `base` and aims at slot 4 (the old
+    head); it changes nothing -/
+example : (runs step (init FenceCfg.code 8) (exPassPre ++ [tPeek 2, t 2, t 2, t 2, t 2])).map
+    (fun s => (s.tpc 2, s.bufT 0, s.A, s.retd)) =
+    some (.pk3 4, [.ptr 3 (some 9), .baseI 3 9], [1, 2], []) := by decide
+
+open Lbl in
+/-- trypass into the very slot an owner's slow-path pop is aimed at: the owner pushed 1 and started a
+    pop, thief 1 took 1, the owner (its `top = 4` drained, deque empty, `base = 5 > top`) waits for
+    the lock that passer 0 holds; the pass stores slot 4 and `base = 4`; after its unlock the owner
+    finds `base <= top` and pops 9 -/
+def exPassSlow : List Lbl :=
+  [oPush 1, o, o, o, o, flushO, flushO,
+   oPop, o,
+   tTake 1, t 1, t 1, t 1, t 1, flushT 1, t 1, t 1, t 1, t 1,
+   o, flushO, o, o,
+   tPass 0 9, t 0, t 0, t 0, t 0, t 0,
+   o, flushT 0, flushT 0, t 0,
+   o, o, o, o, flushO, o]
+
+example : (runs step (init FenceCfg.code 8) exPassSlow).map
+    (fun s => (s.retd, s.A, s.top, s.base, s.opc)) = some ([9, 1], [], 4, 4, .idle) := by decide
+
+open Lbl in
+/-- a failed trylock (the owner holds the lock inside put) returns without inserting; at
+    `base == 0` trypass returns 0 under the lock -/
+example : (runs step (init FenceCfg.code 8) [oPut 2, o, tPass 0 9, t 0]).map
+    (fun s => (s.tpc 0, s.lock, s.A, s.ins)) = some (.idle, .owner, [], []) := by decide
+open Lbl in
+example : (runs step (init FenceCfg.code 1) [tPass 0 9, t 0, t 0]).map
+    (fun s => (s.tpc 0, s.bufT 0, s.A)) = some (.tp4 false, [], []) := by decide
 
 end MythVerif.WsqTso
